@@ -10,6 +10,25 @@ static size_t g_k;                 /* ghost index of one input byte */
 static unsigned g_bit;             /* ghost bit number */
 static struct { size_t n; byte at_k; } DST;      /* the back_inserter: number of bytes appended, and the g_k-th of them */
 static void dest_push_back(byte b) { if (DST.n == g_k) DST.at_k = b; DST.n = DST.n + 1; }
+/* Specification automaton for the opcodes this contract covers (HFEv3: NOP F0 and SETINDEX F1 take no operand and emit
+   nothing; SETBITRATE F2 takes one operand byte and emits nothing; every other byte below F0 is track data).  h_cnt[i] =
+   bytes emitted by the first i input bytes, h_op[i] = opcode still waiting for its operand after them.  For an HFE v1
+   track (hfe3 false) every byte is data.  SKIPBITS / RAND / unassigned opcodes are excluded by the harness. */
+static size_t h_cnt[BLOCK_MAX + 1];
+static byte h_op[BLOCK_MAX + 1];
+static void h_fill_tables(_Bool hfe3, size_t n)
+{
+  unsigned i;
+  h_cnt[0] = 0; h_op[0] = 0;
+  for (i = 0; i < BLOCK_MAX; ++i)
+    {
+      const byte b = h_block[i];
+      if (hfe3 && h_op[i] == 0) __CPROVER_assume(i >= n || b < 0xF3);
+      if (hfe3 && h_op[i] != 0) { h_op[i + 1] = 0; h_cnt[i + 1] = h_cnt[i]; }
+      else if (hfe3 && b >= 0xF0) { h_op[i + 1] = (b == 0xF2) ? 0xF2 : 0; h_cnt[i + 1] = h_cnt[i]; }
+      else { h_op[i + 1] = 0; h_cnt[i + 1] = h_cnt[i] + 1; }
+    }
+}
 #include "hfe_opcodes.inc"
 #include "is_hfe3_opcode.inc"
 /* ghost for the 8-step inner loop: what `out` is after j steps when no bit is skipped (set up by a rule just before it) */
@@ -25,8 +44,9 @@ static byte h_out[9];
 #define COPY_HFE_LOOP_CONTRACT \
   __CPROVER_assigns(begin, got_bits, out, this_op, DST, g_diag, __CPROVER_object_whole(h_out)) \
   __CPROVER_loop_invariant(__CPROVER_same_object(begin, end) && __CPROVER_same_object(begin, h_block) && __CPROVER_POINTER_OFFSET(begin) <= __CPROVER_POINTER_OFFSET(end) && \
-                           got_bits == 0 && out == 0 && this_op == 0 && g_exc == EXC_NONE && DST.n == __CPROVER_POINTER_OFFSET(begin)) \
-  __CPROVER_loop_invariant((g_k < DST.n) ==> (((DST.at_k >> g_bit) & 1) == ((h_block[g_k] >> (7 - g_bit)) & 1))) \
+                           got_bits == 0 && out == 0 && g_exc == EXC_NONE && \
+                           this_op == h_op[__CPROVER_POINTER_OFFSET(begin)] && DST.n == h_cnt[__CPROVER_POINTER_OFFSET(begin)] && DST.n <= __CPROVER_POINTER_OFFSET(begin)) \
+  __CPROVER_loop_invariant((!hfe3 && g_k < DST.n) ==> (((DST.at_k >> g_bit) & 1) == ((h_block[g_k] >> (7 - g_bit)) & 1))) \
   __CPROVER_decreases(__CPROVER_POINTER_OFFSET(end) - __CPROVER_POINTER_OFFSET(begin))
 #include "copy_hfe.inc"
 
@@ -34,11 +54,16 @@ static bool is_hfe3_opcode(byte val)
 __CPROVER_assigns() __CPROVER_ensures(__CPROVER_return_value == ((val & 0xF0) == 0xF0));
 
 static void copy_hfe(bool hfe3, const byte *begin, const byte *end)
-__CPROVER_requires(!hfe3 && begin == h_block && end >= begin && end <= h_block + BLOCK_MAX && g_exc == EXC_NONE && DST.n == 0)
+__CPROVER_requires(begin == h_block && end >= begin && end <= h_block + BLOCK_MAX && g_exc == EXC_NONE && !g_exc_by_pointer && DST.n == 0)
+__CPROVER_requires(h_cnt[0] == 0 && h_op[0] == 0)          /* the tables were filled for this (hfe3, block) by the harness */
 __CPROVER_assigns(DST, g_diag, g_exc, g_exc_by_pointer, __CPROVER_object_whole(h_out))
-/* one output byte per input byte, in order, bit g_bit of output k being bit 7-g_bit of input k; no exception */
-__CPROVER_ensures(g_exc == EXC_NONE && DST.n == (size_t)(end - begin))
-__CPROVER_ensures(g_k < (size_t)(end - begin) ==> (((DST.at_k >> g_bit) & 1) == ((h_block[g_k] >> (7 - g_bit)) & 1)));
+/* v1: one output byte per input byte, in order, bit g_bit of output k being bit 7-g_bit of input k; no exception */
+__CPROVER_ensures(!hfe3 ==> (g_exc == EXC_NONE && DST.n == (size_t)(end - begin)))
+__CPROVER_ensures((!hfe3 && g_k < (size_t)(end - begin)) ==> (((DST.at_k >> g_bit) & 1) == ((h_block[g_k] >> (7 - g_bit)) & 1)))
+/* v3 with NOP / SETINDEX / SETBITRATE opcodes: exactly the data bytes are emitted (opcodes and operands emit nothing);
+   a block that ends inside an opcode raises (by value) */
+__CPROVER_ensures(DST.n == h_cnt[end - begin] && !g_exc_by_pointer)
+__CPROVER_ensures((g_exc == EXC_NONE) == (h_op[end - begin] == 0));
 
 void h_is_opcode(void) { is_hfe3_opcode(nondet_uchar()); }
 void h_copy_hfe(void)
@@ -47,6 +72,18 @@ void h_copy_hfe(void)
   __CPROVER_assume(n <= BLOCK_MAX);
   g_k = nondet_size_t(); g_bit = nondet_uint(); __CPROVER_assume(g_bit < 8);
   g_exc = EXC_NONE; g_exc_by_pointer = 0; DST.n = 0;
+  h_fill_tables(0, n);
   copy_hfe(0, h_block, h_block + n);
   VERIF_COVER(DST.n == 256, "a whole 256-byte block copied");
+}
+void h_copy_hfe3(void)
+{
+  size_t n = nondet_size_t();
+  __CPROVER_assume(n <= BLOCK_MAX);
+  g_k = nondet_size_t(); g_bit = nondet_uint(); __CPROVER_assume(g_bit < 8);
+  g_exc = EXC_NONE; g_exc_by_pointer = 0; DST.n = 0;
+  h_fill_tables(1, n);
+  copy_hfe(1, h_block, h_block + n);
+  VERIF_COVER(g_exc == EXC_NONE && DST.n + 3 == n && n > 10, "a block with a SETBITRATE and a NOP");
+  VERIF_COVER(g_exc != EXC_NONE, "block ends inside an opcode");
 }
